@@ -1182,7 +1182,21 @@ pub fn gen_cts(ctx: &mut Ctx, n: usize, stream: u64) {
             let quiet = ["N".to_string(), format!("RS.{}.SHP", own ^ 1), "E".to_string(), format!("AO.{}.RPX", own), format!("GB.{}", own)];
             fault = vec![rng.pick(&quiet).clone(), rng.pick(&quiet[..4]).clone()];
         }
-        let auto = rng.chance(1, 2);
+        let mut auto = rng.chance(1, 2);
+        let (ops, fail_pattern) = if k % 16 == 7 {
+            // two sends on one Sign, the first answered "showing pages" at the flip-style query (automatic flip), the second
+            // answered there with nothing conclusive: silence, a report from another address, a goodbye, an unknown frame.
+            // The second call's style is decided by ITS OWN last reply.
+            auto = true;
+            let n1 = (bytes_of_hex(p1.split('.').nth(2).unwrap()).len() / 16) as i64;
+            let first_len = n1 + 5;
+            fault_at = vec![2 * first_len - 1];
+            let quiet = ["N".to_string(), format!("RS.{}.SHP", own ^ 1), format!("GB.{}", own), format!("UN.{}.9.01", own), format!("RS.{}.SHP", own.wrapping_add(256))];
+            fault = vec![quiet[(k / 16) % quiet.len()].clone()];
+            (vec![snd1.clone(), snd1.clone()], vec![0u64, 0])
+        } else {
+            (ops, fail_pattern)
+        };
         let mut r2 = Rng::new(rng.next(), 4242);
         let fp = fail_pattern.clone();
         let mut attempt_failures = 0u64;
